@@ -38,6 +38,8 @@ type mnode struct {
 	local *localFile
 
 	target string
+
+	ftype filesystem.FileType // kindOther
 }
 
 func newLazyDir(ref *refDir) *mnode { return &mnode{kind: kindDir, ref: ref} }
@@ -295,11 +297,17 @@ func (a *action) checkNode(op string, p []string, name string, child virtual.Dir
 		gotKind = kindSymlink
 	case leaf != nil && ft == filesystem.FileTypeRegularFile:
 		gotKind = kindFile
+	case leaf != nil:
+		gotKind = kindOther
 	}
 	if gotKind != want.kind || (want.kind == kindDir && ft != filesystem.FileTypeDirectory) {
 		a.violate("fidelity kind-mismatch op="+op+" want="+kindName(want.kind)+" got="+kindName(gotKind),
 			fmt.Sprintf("%s: node kind differs (file type %d)", where, ft),
 			map[string]any{"path": where, "expected_kind": kindName(want.kind), "observed_kind": kindName(gotKind), "observed_filetype": int(ft)})
+		return false
+	}
+	if want.kind == kindOther && ft != want.ftype {
+		a.violate("fidelity local-special-file-type-mismatch op="+op, fmt.Sprintf("%s: file type %d, expected %d", where, ft, want.ftype), map[string]any{"path": where})
 		return false
 	}
 	switch want.kind {
